@@ -100,7 +100,8 @@ def run(ctx):
                     inner = res[2][0] if (isinstance(res, tuple) and res[0] == "agg" and res[2]) else None
                     inner = inner[2][0] if (isinstance(inner, tuple) and inner[0] == "agg" and inner[2]) else None
                     # libsodium's stream_xor returns a Vec of its input's length; Vec -> [u8;32] conversion is then total
-                    if isinstance(inner, tuple) and inner[0] == "ok" and inner[1][0] == "call" and inner[1][1] == "<Vec<u8> as TryInto<[u8; 32]>>::try_into":
+                    from textforms import exact_len_conv_name
+                    if isinstance(inner, tuple) and inner[0] == "ok" and inner[1][0] == "call" and exact_len_conv_name(inner[1][1]) == 32:
                         inner = inner[1][2][0]
                     if inner != k0 and not probs:
                         probs.append("unsealed key is not the sealed key: " + fmt_n(res)[:500])
